@@ -108,6 +108,7 @@ CHECKS = {
              "two roots (empty cluster; steady parent with children); state = canonical store + caches + staleness + one-shot budgets; monitors F1-F7 on every sync transition",
         units=[
             dict(pkg=COMPOSITE, test="TestVerifC10", shards=dict(quick=15, thorough=15), budget=dict(quick=240, thorough=3000)),
+            dict(pkg=DECORATOR, test="TestVerifC10", shards=dict(quick=7, thorough=7), budget=dict(quick=240, thorough=3000)),
         ],
         assumptions=SIM_ASSUMPTIONS + ["canonical form: resourceVersions replaced by fresh/stale bits, UIDs renamed in order of appearance (the code compares both only for equality)"],
         traces_are_evals=False,
